@@ -1,8 +1,9 @@
 (* Extract_dirtyio.v -- extraction of the C02 model with failing writes (DirtyIoDefs.v on top of DirtyDefs.v and IoDefs.v)
    to OCaml (ExtrOcamlBasic only). *)
 From Coq Require Import List NArith ZArith Extraction ExtrOcamlBasic.
-From NV Require Import UndoDefs DirtyDefs DirtyIoDefs.
+From NV Require Import UndoDefs DirtyDefs DirtyIoDefs DirtyAllDefs.
 From NV Require IoDefs.
 Definition all_types : nat * N * Z := (0%nat, 0%N, 0%Z).
 Extraction "dirtyio_model.ml" all_types ebuf_open run_dop dirty_flag fwrite fec_quit fquit_loop frun fopen fe fpath fts
-  IoDefs.fs_content IoDefs.fs_mtime.
+  IoDefs.fs_content IoDefs.fs_mtime
+  ec_quit_n quit_n head_write nbuf_new nbuf_open nrun noccupied.
